@@ -599,7 +599,7 @@ def make_world(kind, version, level, rng, **kw):
 # expected to be rejected; wild ones exercise re-attachment, shadow reads and alternative views.
 FAULTS = ('f_wrong_class', 'f_wrong_name', 'f_foreign_elem', 'f_level_add', 'f_level_set', 'f_version_add',
           'f_version_set', 'f_card', 'f_badvalue', 'f_del_absent', 'f_delidx_absent', 'f_dtchange', 'f_value_wrongname',
-          'f_children_bad', 'f_settype', 'f_value_badleaf')
+          'f_children_bad', 'f_settype', 'f_value_badleaf', 'f_deep_level_set', 'f_deep_version_set')
 WILD = ('w_reattach', 'w_add_twice', 'w_set_own', 'w_read', 'w_parent_ctor', 'w_del_view', 'w_pop', 'w_children_assign',
         'w_value', 'w_setitem_view', 'w_deep_write', 'w_detached_readd')
 
@@ -773,6 +773,37 @@ def apply_wild(world, op):
             G(lambda: setattr(el, 'value', '%s|%s' % (world.seg, '|'.join(['not^a&number~x'] * 3))))
             if world.level == 2:
                 return None
+        else:
+            raise Skip()
+    elif k in ('f_deep_level_set', 'f_deep_version_set'):
+        # a refused assignment at the end of a traversal chain whose intermediate element may not exist yet
+        lvl = 3 - world.level if 'level' in k else world.level
+        ver = _other_version(world.version) if 'version' in k else world.version
+        if world.kind == 'segment':
+            row = world.rows[name]
+            comps = [c for c in tables.components(world.version, row.datatype) if c.ok and c.card[1] != 0] \
+                if row.kind == 'sequence' else []
+            if not comps:
+                raise Skip()
+            c = comps[i % len(comps)]
+            try:
+                offered = core.Component(c.name, version=ver, validation_level=lvl)
+                offered.value = val
+            except Exception:
+                raise Skip()
+            world.detached.append(offered)
+            G(lambda: setattr(getattr(el, lname), c.name.lower(), offered))
+        elif world.kind == 'message':
+            if world.group is not None and name == world.group.name:
+                raise Skip()
+            rname = '%s_1' % name
+            try:
+                offered = core.Field(rname, version=ver, validation_level=lvl)
+                offered.value = val[1:]
+            except Exception:
+                raise Skip()
+            world.detached.append(offered)
+            G(lambda: setattr(getattr(el, lname), rname.lower(), offered))
         else:
             raise Skip()
     # ---- wild (usually accepted)
